@@ -8,7 +8,7 @@ build      props/C08.v: sqdist_isometry (lists and, entry-wise Q^T Q = I, MathCo
            Gram_eps(aX; a ls) = Gram_{eps/a^2}(X; ls), loss_aX(z) = loss_X(z) + n ln a, starting-point target unchanged;
            time axis t -> a t + c with ls_time -> a ls_time (Gram unchanged up to eps -> eps/a^2), time derivative / a;
            permutations: ls, mu, loss (rows of L following the cells), Gram(PX) = P Gram(X) P^T, J_PX(P f) = J_X(f),
-           unique minimiser follows the permutation (uniqueness assumed: _partial).
+           every minimiser of the reordered problem is the reordered minimiser (uniqueness PROVED from spd + concavity: C08_fitted_follow_permutation).
 run        ALWAYS-RUN SUPPORT + SEARCHER: pairs of real fits (base data, transformed data) for DensityEstimator,
            TimeSensitiveDensityEstimator, DimensionalityEstimator x {full, full_nystroem, sparse_cholesky, fixed with explicit
            landmarks transformed together with the data} x {rotation/reflection + translation, permutation, scalings,
@@ -385,7 +385,7 @@ def run(ctx):
         "contract (distance to the nearest other row); jax.scipy gammaln is uninterpreted",
         "the list/real-number development (thm/C08Thm.v) and the MathComp development (thm/C08MxThm.v) are not formally connected: "
         "orthogonality is used in its bilinear form over lists and proved from the entry-wise form over any real closed field",
-        "uniqueness of the minimiser (strict convexity) is assumed where fitted values are concerned (_partial)",
+        "uniqueness of the minimiser is proved (C08_objective_min_unique, C08_nn_fitted_follow_permutation); its existence is assumed where fitted values are concerned",
     ]
     gen, funcs = {}, []
     ok = True
@@ -558,8 +558,8 @@ def run(ctx):
                        "predictions, time derivative) with the a-posteriori optimiser bound; distinct_nontrivial = (estimator, type) x 4 "
                        "transformation kinds" % (scales,))
     ctx.cov["level_note"] = ("proof for the isometry / scaling / time-axis / permutation laws of the inference problem (world A + MathComp); "
-                             "partial: fitted values follow the permutation only under the assumed uniqueness of the minimiser "
-                             "(C08_fitted_follow_permutation_partial); the scale clause for the DimensionalityEstimator's fitted values is a KNOWN "
+                             "fitted values follow the permutation whenever minimisers exist (C08_fitted_follow_permutation; uniqueness proved, existence not) "
+                             "; the scale clause for the DimensionalityEstimator's fitted values is a KNOWN "
                              "FINDING (key C08|DimensionalityEstimator|scale|fitted-values-not-equivariant: the k-NN Poisson term is compensated "
                              "only by a latent-dependent shift, theorem C08_poisson_term_scale) - its nn distances, ls, mu_dens, Gram matrices do "
                              "transform as proved and are checked; fitted values / predictions are support comparisons")
